@@ -78,7 +78,11 @@ def proof_status(prop_files, clean=False):
             stamp = os.path.join(WORK, 'clean-' + tree_hash([COQ]) + '.stamp')
             if not os.path.exists(stamp):
                 sh("cd %s && make clean" % COQ)
-                open(stamp, 'w').write(str(time.time()))
+                r0 = sh("cd %s && timeout 5400 make -j16" % COQ)
+                if r0.returncode == 0:
+                    open(stamp, 'w').write(str(time.time()))
+                else:
+                    problems.append("clean rebuild of the whole development failed: " + r0.stdout[-600:])
         targets = ' '.join(f[:-2] + '.vo' for f in prop_files)
         r = sh("cd %s && timeout 3000 make -j16 %s" % (COQ, targets))
         if r.returncode != 0:
@@ -108,26 +112,18 @@ def proof_status(prop_files, clean=False):
         if open_ax:
             problems += open_ax
     if clean and not problems:
-        # independent re-check (coqchk) with the axioms relied upon.  The bulk of the development (all 30 panel verdicts,
-        # ~30 min) is re-checked recursively once per state of the sources; each property file is then re-checked on
-        # its own (-norec: its dependencies were covered by the recursive run).
-        def chk(args):
-            r3 = sh("cd %s && timeout 6000 coqchk -silent -o -Q . EPD %s 2>&1 | tail -15" % (COQ, args))
-            out = r3.stdout
-            ok = 'Axioms: <none>' in out and 'type-in-type: <none>' in out and 'unsafe (co)fixpoints: <none>' in out and 'positivity is assumed: <none>' in out
-            return ok, out
+        # independent re-check (coqchk -o) of every Properties module and, recursively, everything they depend on
+        # (all 30 panel verdicts: ~30 min), with the axioms relied upon - once per state of the sources
+        mods = ' '.join('EPD.Properties.' + os.path.basename(f)[:-2] for f in sorted(glob.glob(os.path.join(COQ, 'Properties', '*.v'))))
         stamp = os.path.join(WORK, 'coqchk-' + tree_hash([COQ]) + '.txt')
         with Lock('coqchk'):
             if not os.path.exists(stamp):
-                ok, out = chk("EPD.Proof.Recovery EPD.Proof.Enc EPD.Proof.Windows EPD.HalProofs EPD.Big.FailStop EPD.Big.Tiling EPD.Big.Window EPD.Big.Mode "
-                              "EPD.Pure.GraphicsProofs2 EPD.Pure.SizingProofs EPD.Pure.ColorProofs EPD.Pure.RectProofs")
+                r3 = sh("cd %s && timeout 9000 coqchk -silent -o -Q . EPD %s 2>&1 | tail -15" % (COQ, mods))
+                out = r3.stdout
+                ok = 'Axioms: <none>' in out and 'type-in-type: <none>' in out and 'unsafe (co)fixpoints: <none>' in out and 'positivity is assumed: <none>' in out
                 open(stamp, 'w').write(('OK\n' if ok else 'FAILED\n') + out)
         if not open(stamp).read().startswith('OK'):
-            problems.append("coqchk (recursive run over the development) did not report a clean context: " + open(stamp).read()[-400:])
-        for f in prop_files:
-            ok, out = chk("-norec EPD." + f[:-2].replace('/', '.'))
-            if not ok:
-                problems.append("coqchk -norec failed / reports axioms for %s: %s" % (f, out[-400:]))
+            problems.append("coqchk over all Properties modules did not report a clean context: " + open(stamp).read()[-500:])
     bad = forbidden_scan()
     if bad:
         problems.append("forbidden vernacular: " + '; '.join(bad[:10]))
